@@ -125,9 +125,8 @@ int main (int argc, char **argv)
 	int a, b, c, t, sq, p, f ;
 	vh_init (argc, argv, "c18_peak_signal_max", "C18") ;
 	vh_enum_formats () ;
-	for (a = 0 ; a < 5 ; a++) for (b = 0 ; b < 2 ; b++) for (c = 0 ; c < (vh_thorough ? 5 : 4) ; c++) for (t = 0 ; t < T_N ; t++) for (sq = 0 ; sq < 6 ; sq++) for (p = 0 ; p < 6 ; p++)
+	for (a = 0 ; a < 5 ; a++) for (b = 0 ; b < 2 ; b++) for (c = 0 ; c < 5 ; c++) for (t = 0 ; t < T_N ; t++) for (sq = 0 ; sq < 6 ; sq++) for (p = 0 ; p < 6 ; p++)
 	{	int format = majors [a] | (b ? SF_FORMAT_DOUBLE : SF_FORMAT_FLOAT) ;
-		if (!vh_thorough && ((sq * 6 + p + t + c) % 3)) continue ;
 		if (!vh_accepts (format, chans [c], 44100)) continue ;
 		if (!vh_case ("%s ch=%d write=%s seq=%d part=%d", vh_fname (format), chans [c], vh_tname [t], sq, p)) continue ;
 		vh_distinct (vh_fnv (0, &format, 4) ^ ((uint64_t) chans [c] << 33) ^ ((uint64_t) t << 40) ^ ((uint64_t) sq << 44) ^ ((uint64_t) p << 48) ^ vh_rs) ;
